@@ -242,6 +242,20 @@ def oracle_fit(case):
                     if ok:
                         raise Violation(f"{label} [{name}]: fit stopped after a positive gain {last_gain!r} with "
                                         f"{n_leaves} < max_leaves={max_leaves} leaves and explorable leaves left")
+        if not calls:
+            # the split search was never consulted: legitimate only if a structural limit forbids splitting the root
+            n = len(X)
+            max_leaves = s["max_leaves"] if s["max_leaves"] is not None else n
+            full_subset = s["max_features"] is None or s["max_features"] >= X.shape[1]
+            if n >= s["min_samples_split"] and max_leaves > 1 and full_subset:
+                Kroot = E.kauri_ref_kernel(s, X) if s["kernel"]["form"] != "named" else \
+                    np.ascontiguousarray(__import__("sklearn.metrics").metrics.pairwise_kernels(X, metric=s["kernel"]["name"]), dtype=np.float64)
+                root = KR.State(Kroot, X, np.zeros(n, dtype=int), np.zeros(1, dtype=int), 1, s["max_clusters"],
+                                s["min_samples_leaf"], [0], list(range(X.shape[1])))
+                b0, k0 = root.best()
+                if b0 > 1e-9 * max(1.0, n * float(np.max(np.abs(Kroot)))):
+                    raise Violation(f"{label} [{name}]: fit made no split and never searched for one although an admissible "
+                                    f"{k0} split of the root gains {b0!r} and no structural limit binds")
         if hit_known is not None:
             pending = hit_known
     if pending is not None:
